@@ -8,6 +8,7 @@ CONSTANTS
   Indents = {2}
   Breaks = {"LF"}
   DocFlags = {}
+  Sim = FALSE
 SPECIFICATION Spec
 INVARIANT Emit
 
